@@ -204,15 +204,24 @@ def _parse_via(fs: Any, plan: dict[str, Any], op: dict[str, Any], sel_rt: Any) -
     return world.parse_text(text, sel_rt)
 
 
+def _solo_in_pristine(solo_text: str, victim: str) -> dict[str, Any]:
+    from detsim import world
+
+    world.reference_process_state()
+    return _solo_outcome(solo_text, victim)
+
+
 def _reference_digests(text: str, solo_text: str | None = None, victim: str = "") -> dict[str, Any]:
     """Unrestricted parse of the undamaged file in a pristine process (forked grandchild), and
     the outcome of the damaged section when it is the only instrument section of its file."""
     from detsim import world
 
     world.reference_process_state()
-    solo = _solo_outcome(solo_text, victim) if solo_text is not None else None
+    # each of the two references gets a pristine process of its own (this one for the undamaged
+    # file, a further fork for the damaged section alone): neither may see what the other's parse
+    # left behind in the process
     out = _reference_digests_inner(text)
-    out["solo"] = solo
+    out["solo"] = None  # computed by the run process in a pristine fork of its own
     return out
 
 
@@ -264,6 +273,12 @@ def execute(plan: dict[str, Any]) -> dict[str, Any]:
                 "harness_error": f"reference computation failed: {e}"}
     if "error" in refd:
         raise Discard("undamaged-file-rejected:" + refd["error"])
+    if plan.get("S") is not None:
+        try:
+            refd["solo"] = runner.in_fork(_solo_in_pristine, plan["S"], victim, timeout=100)
+        except runner.ChildFailure as e:
+            return {"violations": [], "digest": "", "evals": 1,
+                    "harness_error": f"reference computation failed: {e}"}
     ref_track_dig = refd["tracks"]
     ref_shared = refd["shared"]
     ref_tracks: dict[str, Any] = {}
